@@ -49,11 +49,12 @@ def stress_alias_locals(ctx, x, y):
 
 
 def stress_signed_zero(ctx, x):
-    # both zeros, each used more than once and none bound to a local name, so that the printers
-    # have to invent variable names for them
-    nz = ctx.constant(-0.0, x)
-    r = ctx.select(x < 0.0, nz, ctx.constant(0.0, x)) + ctx.constant(-0.0, x) * x
-    return r + ctx.constant(0.0, x) * x
+    # both zeros, each used more than once and none bound to a local name (no ctx(...) call), so that
+    # the printers have to invent variable names for them; the sign of the result reveals which zero
+    # was used (sums of zeros would hide it)
+    r = ctx.select(x < 0.0, ctx.constant(-0.0, x), ctx.constant(0.0, x))
+    s = ctx.select(x > 1.0, ctx.constant(-0.0, x), r)
+    return s * (x * x + 1.0)
 
 
 def _h1(ctx, x):
